@@ -6,6 +6,7 @@ import (
 	"net"
 	"net/rpc"
 	"os"
+	"strings"
 	"sync"
 	"sync/atomic"
 	"time"
@@ -21,8 +22,12 @@ var jitterState uint64
 func installHooks() {
 	plugin.VerifSetHook(func(name string, id uint32) {
 		crashIf(name)
-		if cfg.DelayPoint != "" && name == cfg.DelayPoint {
-			time.Sleep(time.Duration(cfg.DelayMs) * time.Millisecond)
+		if cfg.DelayPoint != "" {
+			for _, dp := range strings.Split(cfg.DelayPoint, ",") {
+				if dp == name {
+					time.Sleep(time.Duration(cfg.DelayMs) * time.Millisecond)
+				}
+			}
 		}
 		if cfg.JitterUs > 0 {
 			x := atomic.AddUint64(&jitterState, 0x9E3779B97F4A7C15)
